@@ -20,7 +20,7 @@ ToSetS(seq) == {seq[i] : i \in DOMAIN seq}
 
 ConvStage(r) == [status |-> r.status, ver |-> r.ver, started |-> r.started, fired |-> r.fired,
                  cb |-> ToSetS(r.cb), act |-> ToSetS(r.act), bypass |-> r.bypass, jumps |-> r.jumps,
-                 buf |-> r.buf, sig |-> r.sig]
+                 buf |-> r.buf, sig |-> r.sig, mi |-> r.mi]
 ConvMsg(r) == [id |-> r.id, ord |-> r.ord, typ |-> r.typ, s |-> r.s, t |-> r.t, status |-> r.status,
                rc |-> r.rc, target |-> r.target, phase |-> r.phase, sig |-> r.sig, pers |-> r.pers,
                att |-> r.att, lock |-> r.lock, delayed |-> r.delayed]
@@ -82,10 +82,11 @@ TRegion  == IsEvent("sendregion") /\ SendCancelRegion(Ev.region) /\ LoggedP(Ev.s
 TSwSnap  == IsEvent("sweepsnap") /\ SweepSnap /\ LoggedP(Ev.s)
 TSwLook  == IsEvent("sweeplook") /\ SweepLook /\ LoggedP(Ev.s)
 TSwPush  == IsEvent("sweeppush") /\ SweepPush /\ LoggedP(Ev.s)
+TAdd     == IsEvent("sendadd") /\ SendAddInstance(Ev.stage) /\ LoggedP(Ev.s)
 TEarly   == IsEvent("early") /\ EarlyStart(Ev.stage) /\ LoggedP(Ev.s)
 
 TraceNext == TCommit \/ TDedup \/ TTrusted \/ TBloomReset \/ TExec \/ THRet \/ THRaise \/ THFail \/ TNoAck \/ TWarp \/ TExpire
-             \/ TSweep \/ TDlq \/ TCrash \/ TCancel \/ TEarly \/ TSignal \/ TClaimSweep \/ TPause \/ TUnpause \/ TRestart \/ TRegion \/ TSwSnap \/ TSwLook \/ TSwPush \/ TDedupFault
+             \/ TSweep \/ TDlq \/ TCrash \/ TCancel \/ TEarly \/ TSignal \/ TClaimSweep \/ TPause \/ TUnpause \/ TRestart \/ TRegion \/ TSwSnap \/ TSwLook \/ TSwPush \/ TDedupFault \/ TAdd
 
 TraceSpec == TraceInit /\ [][TraceNext]_tvars
 
